@@ -628,7 +628,48 @@ def rule_gate(ctx):
            "that skips CHALLENGE and omits `authmethod` is joined although 'anonymous' was not offered", shim.loc())
 
 
+def rule_siblings(ctx):
+    """autobahn.twisted.wamp carries its own AuthWampCra / AuthCryptoSign (public classes of that module).  They answer the same challenges
+    and must compute the same values as the authenticators in autobahn.wamp.auth: same reference terms."""
+    ctx.rule("C19.6-sibling-authenticators")
+    p = ctx.program
+    TW = "autobahn.twisted.wamp"
+    mod = p.module(TW)
+    inline = make_inline(ctx, {AUTH})
+    n = 0
+    cra = mod.classes.get("AuthWampCra")
+    if cra is not None and "on_challenge" in cra.methods:
+        oc = cra.methods["on_challenge"]
+        ctx.analysed(oc)
+        te, rets = ret_term(ctx, oc, inline)
+        ctx.require(len(rets) == 1, f"{TW}.AuthWampCra.on_challenge: single return expected")
+        extra = ATTR(P("challenge"), "extra")
+        secret = ("enc", "utf8", ATTR(P("self"), "_secret"))
+        derived = ("b64e", ("pbkdf2", "sha256", secret, ("tobytes", IDX(extra, "salt")), IDX(extra, "iterations"), IDX(extra, "keylen")))
+        key = ("phi", ("cmp", "in", C("salt"), extra), derived, secret)
+        ref = ("dec", "ascii", ("b64e", HMAC("sha256", key, ("enc", "utf8", IDX(extra, "challenge")))))
+        expect(ctx, f"{TW}.AuthWampCra: WAMP-CRA signature = base64(HMAC-SHA256(key, challenge)), key as in autobahn.wamp.auth", rets[0].term, ref, oc.loc())
+        n += 1
+    cs = mod.classes.get("AuthCryptoSign")
+    if cs is not None and "on_challenge" in cs.methods:
+        ac = cs.methods["on_challenge"]
+        ctx.analysed(ac)
+        t4 = TermEval(p, ac, inline=lambda c, f: None).run()
+        r4 = [o for o in t4.outcomes if o.kind == "return"]
+        ctx.require(len(r4) == 1, f"{TW}.AuthCryptoSign.on_challenge: single return expected")
+        got = canon(r4[0].term)
+        kws = {k[1]: k[2] for k in got[4]} if got[0] == "m" and len(got) > 4 else {}
+        T = kws.get("channel_id_type")
+        cid = ("m", ATTR(ATTR(ATTR(P("session"), "_transport"), "transport_details"), "channel_id"), "get", (T, C(None)), ())
+        ref = ("m", ATTR(P("self"), "_privkey"), "sign_challenge", (P("challenge"),), (("kw", "channel_id", cid), ("kw", "channel_id_type", T)))
+        expect(ctx, f"{TW}.AuthCryptoSign signs with its key, the channel id of the session's transport for the configured binding type, and that type",
+               got, ref, ac.loc())
+        n += 1
+    ctx.require(n == 2 or not (cra or cs), "sibling authenticators of autobahn.twisted.wamp not found")
+
+
 def run(ctx):
+    rule_siblings(ctx)
     rule_scram(ctx)
     rule_cra(ctx)
     rule_totp(ctx)
